@@ -597,6 +597,54 @@ theorem maybeRetransmit_inv (K : Crypto) (s : MState) (h : Inv K s.conv) :
   simp only [wp_bind, wp_getc, wp_ite', wp_pure]
   exact ⟨fun _ => retransmit_inv K s h, fun _ => ⟨h, trivial⟩⟩
 
+theorem retransmitOrReveal_inv (K : Crypto) (s : MState) (h : Inv K s.conv) :
+    wp (retransmitOrReveal K) (fun _ s' => Inv K s'.conv ∧ s'.conv.version = s.conv.version) NoP s := by
+  unfold retransmitOrReveal
+  rw [wp_bind]
+  refine wp_mono _ _ _ _ _ _ (maybeRetransmit_inv K s h) ?_ (fun _ hs => hs)
+  intro r s1 ⟨h1, hv1⟩
+  cases r with
+  | error e => exact ⟨h1, hv1⟩
+  | ok toSend =>
+    simp only [wp_bind, wp_getc]
+    split
+    · simp only [wp_tryCatch, wp_bind]
+      refine wp_mono _ _ _ _ _ _ (genData_inv K _ _ _ s1 h1) ?_ (fun _ hs => hs)
+      intro r s2 ⟨h2, hv2, hm2, henc⟩
+      cases r with
+      | error e =>
+        simp only [wp_pure]
+        exact ⟨h2, hv2.trans hv1⟩
+      | ok x =>
+        have he : s2.conv.msgState = .encrypted := by rw [hm2]; exact henc ⟨_, rfl⟩
+        simp only [wp_bind]
+        refine wp_wrapMessageHeader_x _ _ _ _ _ (h2.enc he).1 ?_
+        intro r v env' mm'
+        cases r with
+        | error e =>
+          simp only [wp_pure]
+          exact ⟨h2.congr rfl rfl rfl rfl rfl rfl rfl, hv2.trans hv1⟩
+        | ok ts =>
+          simp only [wp_pure]
+          exact ⟨h2.congr rfl rfl rfl rfl rfl rfl rfl, hv2.trans hv1⟩
+    · simp only [wp_pure]
+      exact ⟨h1, hv1⟩
+
+/-- repaired code: the retransmission step of `processAKE` keeps the invariant, in every case -/
+theorem retransmitAfterCompletedExchange_inv (K : Crypto) (before after : AuthState) (e : Option Err)
+    (s : MState) (h : Inv K s.conv) :
+    wp (retransmitAfterCompletedExchange K before after e)
+      (fun _ s' => Inv K s'.conv ∧ s'.conv.version = s.conv.version) NoP s := by
+  by_cases hc : before = .none ∨ after ≠ .none ∨ e ≠ none
+  · rw [retransmitAfterCompletedExchange_skip K before after e hc, wp_pure]
+    exact ⟨h, rfl⟩
+  · have hb : before ≠ .none := fun hb => hc (Or.inl hb)
+    have ha : after = .none := Classical.byContradiction fun ha => hc (Or.inr (Or.inl ha))
+    have he : e = none := Classical.byContradiction fun he => hc (Or.inr (Or.inr he))
+    subst ha he
+    rw [retransmitAfterCompletedExchange_completed K before hb]
+    exact retransmitOrReveal_inv K s h
+
 /-! ## `processAKE` -/
 
 theorem wp_congr_run {α} (x y : M α) (Q : Except Err α → MState → Prop) (S : String → Prop) (s s' : MState)
@@ -644,7 +692,7 @@ theorem akeRest_inv (K : Crypto) (hK : CryptoOK K) (t : Nat) (msg : Bytes) (s : 
     refine wp_mono _ _ _ _ _ _ (recvRevealSig_akeP K hK msg st s h) ?_ (fun _ hs => hs)
     rintro r s1 ⟨st', m, e, rfl, hP⟩
     simp only [modAke, wp_bind, wp_modc]
-    refine wp_mono _ _ _ _ _ _ (maybeRetransmit_inv K _ hP.toInv) ?_ (fun _ hs => hs)
+    refine wp_mono _ _ _ _ _ _ (retransmitAfterCompletedExchange_inv K _ _ _ _ hP.toInv) ?_ (fun _ hs => hs)
     intro r s2 ⟨h2, hv2⟩
     have hv2' : s2.conv.version ≠ none := by rw [hv2]; exact hP.ver
     cases r with
@@ -656,7 +704,7 @@ theorem akeRest_inv (K : Crypto) (hK : CryptoOK K) (t : Nat) (msg : Bytes) (s : 
     refine wp_mono _ _ _ _ _ _ (recvSig_akeP K hK msg st s h) ?_ (fun _ hs => hs)
     rintro r s1 ⟨st', m, e, rfl, hP⟩
     simp only [modAke, wp_bind, wp_modc]
-    refine wp_mono _ _ _ _ _ _ (maybeRetransmit_inv K _ hP.toInv) ?_ (fun _ hs => hs)
+    refine wp_mono _ _ _ _ _ _ (retransmitAfterCompletedExchange_inv K _ _ _ _ hP.toInv) ?_ (fun _ hs => hs)
     intro r s2 ⟨h2, hv2⟩
     have hv2' : s2.conv.version ≠ none := by rw [hv2]; exact hP.ver
     cases r with
